@@ -40,6 +40,10 @@ Next == /\ ~fin /\ Len(hist) < MaxHist
         /\ \E op \in Ops : Do(op) /\ (fin' = TRUE \/ (fin' = FALSE /\ Len(hist) + 1 < MaxHist))
 Spec == Init /\ [][Next]_vars
 
+(* random long histories (tlc -simulate): only advancing steps, known deviations kept out *)
+SimNext == ~fin /\ Len(hist) < MaxHist /\ \E op \in Ops : Do(op) /\ fin' = FALSE
+SimSpec == Init /\ [][SimNext]_vars
+
 (* ---- properties ---------------------------------------------------------------------------- *)
 (* what the implementation shows of instance i, in the shape the harness logs it *)
 ObsOf(x, i) == [size |-> x.inst[i].size, empty |-> (x.inst[i].size = 0), items |-> Items(x, i),
